@@ -62,7 +62,7 @@ InitAttrsFull == <<At2("position", PosE("ordinary", "neg")), At2("orientation", 
                    At2("acceleration", Ex("half")), At2("yaw_rate", Ex("tenth")), At2("slip_angle", Ex("zero"))>>
 InitFull == St(TE(0), InitAttrsFull, "InitialState")
 InitOf(S) == St(TE(0), SelectSeq(InitAttrsFull, LAMBDA e : e.n \in S), "InitialState")       \* initial state populating S
-PPInit == InitOf({"position", "orientation", "velocity", "yaw_rate", "slip_angle"})
+PPInit == InitFull      \* with acceleration: the planning pool varies the populated subset
 TimeGoal == Goal(St(TI(1, 5), <<>>, "CustomState"), <<>>)
 DefPP(id) == PP(id, PPInit, <<TimeGoal>>, 1)
 DefSign(id) == Sign(id, <<SignEl(SignIdT[1], <<"50">>)>>, XYp("ordinary", "one"), 0, <<>>)
@@ -203,7 +203,7 @@ AVs == {<<>>, <<"50">>, <<"50", "7.5 t">>}
 SignPool ==      \* <<sign, country of the scenario>>
   {<<Sign(21, <<SignEl(SignIdT[i], av)>>, XYp("ordinary", "neg"), v, <<>>), c>> : i \in DOMAIN SignIdT, av \in AVs, v \in {0, 1}, c \in Countries}
   \cup {<<Sign(21, <<SignEl(SignIdT[1], <<"30">>), SignEl(SignIdT[i], <<>>)>>, XYp("one", "one"), v, f), "ZAM">> :
-          i \in 1..6, v \in {0, 1}, f \in {<<>>, <<1>>, <<1, 2>>}}
+          i \in 1..7, v \in {0, 1}, f \in {<<>>, <<1>>, <<1, 2>>}}
 Colors == NameSet(LightStateT)
 Cycles == {<<Cyc(a, 1)>> : a \in Colors} \cup {<<Cyc(a, 2), Cyc(b, 30)>> : a, b \in Colors}
           \cup {<<Cyc("RED", 2), Cyc("RED_YELLOW", 1), Cyc(a, 5)>> : a \in Colors}
@@ -237,29 +237,31 @@ StaWith(sh, init) == Sta("PARKED_VEHICLE", sh, init, <<>>, <<>>, 1)
 InitWith(a, v) == St(TE(0), [i \in DOMAIN InitAttrsFull |-> IF InitAttrsFull[i].n = a THEN At2(a, v) ELSE InitAttrsFull[i]], "InitialState")
 NumObst ==
   {StaWith(Rect(t, "one", "zero", "zero", "zero"), InitFull) : t \in PosTok} \cup {StaWith(Rect("one", t, "zero", "zero", "zero"), InitFull) : t \in PosTok}
-  \cup {StaWith(Rect("one", "one", t, "zero", "zero"), InitFull) : t \in AnyTok} \cup {StaWith(Rect("one", "one", "zero", t, t), InitFull) : t \in AnyTok}
+  \cup {StaWith(Rect("one", "one", t, "zero", "zero"), InitFull) : t \in AngleToks} \cup {StaWith(Rect("one", "one", "zero", t, t), InitFull) : t \in AnyTok}
   \cup {StaWith(Circ(t, "zero", "zero"), InitFull) : t \in PosTok} \cup {StaWith(Circ("one", t, t), InitFull) : t \in AnyTok}
   \cup {StaWith(Poly(n, t), InitFull) : n \in {3, 4}, t \in PosTok}
   \cup {Dyn("CAR", Rect(t, t, "zero", "zero", "zero"), InitFull, <<>>, <<>>, 1, DefTraj) : t \in PosTok}
   \cup {Dyn("CAR", Circ(t, "zero", "zero"), InitFull, <<>>, <<>>, 1, DefTraj) : t \in PosTok}
   \cup {StaWith(DefRect, InitWith("position", PosE(t, t))) : t \in AnyTok}
   \cup {StaWith(DefRect, InitWith(a, Ex(t))) : a \in {"orientation", "velocity", "acceleration", "yaw_rate", "slip_angle"}, t \in AnyTok}
-  \cup {StaWith(DefRect, InitWith(a, Iv(p[1], p[2]))) : a \in {"orientation", "velocity"}, p \in IntervalPairs}
+  \cup {StaWith(DefRect, InitWith("velocity", Iv(p[1], p[2]))) : p \in IntervalPairs}
+  \cup {StaWith(DefRect, InitWith("orientation", Iv(p[1], p[2]))) : p \in AnglePairs}
   \cup {StaWith(DefRect, InitWith("position", Reg(sh))) :
-          sh \in {Rect(t, t, "zero", "zero", "zero") : t \in PosTok} \cup {Rect("one", "one", t, t, t) : t \in AnyTok} \cup {Circ(t, "one", "one") : t \in PosTok}}
+          sh \in {Rect(t, t, "zero", "zero", "zero") : t \in PosTok} \cup {Rect("one", "one", "zero", t, t) : t \in AnyTok} \cup {Rect("one", "one", t, "one", "one") : t \in AngleToks}
+                 \cup {Circ(t, "one", "one") : t \in PosTok}}
   \cup {Dyn("CAR", DefRect, InitFull, <<>>, <<>>, 1,
             Traj(1, <<St(TE(1), <<At2("position", PosE(t, t)), At2("orientation", Ex(t)), At2("velocity", Ex(t)), At2("acceleration", Ex(t))>>, "CustomState")>>, DefRect)) :
           t \in AnyTok}
   \cup {Dyn("CAR", DefRect, InitFull, <<>>, <<>>, 1, SetP(1, <<Occ(TE(1), sh)>>)) :
-          sh \in {Rect(t, t, "zero", "zero", "zero") : t \in PosTok} \cup {Rect("one", "one", t, t, t) : t \in AnyTok} \cup {Circ(t, t, t) : t \in PosTok}
-                 \cup {Poly(3, t) : t \in PosTok}}
+          sh \in {Rect(t, t, "zero", "zero", "zero") : t \in PosTok} \cup {Rect("one", "one", "zero", t, t) : t \in AnyTok} \cup {Rect("one", "one", t, "one", "one") : t \in AngleToks}
+                 \cup {Circ(t, t, t) : t \in PosTok} \cup {Poly(3, t) : t \in PosTok}}
 NumHdr == {Hdr(t, "ZAM", <<"URBAN">>, 1, "one", "one", <<>>, <<>>, "scenario") : t \in PosTok}
           \cup {Hdr("tenth", "ZAM", <<"URBAN">>, 1, t, t, <<>>, <<>>, "scenario") : t \in AnyTok}
           \cup {Hdr("tenth", "ZAM", <<"URBAN">>, 1, "one", "one", Geo("utm", t, t, t, "one"), <<>>, "scenario") : t \in AnyTok}
           \cup {Hdr("tenth", "ZAM", <<"URBAN">>, 1, "one", "one", Geo("utm", "one", "one", "zero", t), <<>>, "scenario") : t \in PosTok}
 NumLanelet == {Lan(3, t, "SOLID", "DASHED", <<>>, <<>>, <<>>, <<>>, <<Stop("SOLID", <<>>, <<>>, 1, 1)>>, <<"URBAN">>, <<>>, <<>>, <<>>, <<>>) : t \in PosTok}
 NumPP == {PP(91, PPInit, <<Goal(St(TI(1, 5), <<At2("position", Reg(sh)), At2("velocity", Iv(p[1], p[2])), At2("orientation", Iv("half", "angle"))>>, "CustomState"), <<>>)>>, 1) :
-            sh \in {Rect(t, t, t, t, t) : t \in PosTok} \cup {Circ(t, t, t) : t \in PosTok}, p \in IntervalPairs}
+            sh \in {Rect(t, t, "angle", t, t) : t \in PosTok} \cup {Circ(t, t, t) : t \in PosTok}, p \in IntervalPairs}
          \cup {PP(91, St(TE(0), [i \in DOMAIN PPInit.a |-> At2(PPInit.a[i].n, IF PPInit.a[i].n = "position" THEN PosE(t, t) ELSE Ex(t))], "InitialState"),
                   <<TimeGoal>>, 1) : t \in AnyTok}
 NumSign == {Sign(21, <<SignEl(SignIdT[1], <<"50">>)>>, XYp(t, t), 0, <<>>) : t \in AnyTok}
@@ -309,7 +311,8 @@ Cases ==
     [] Component = "numbers"      -> {Case("numbers", d, desc) : d \in Precisions, desc \in NumDescs}
     [] Component = "mixed"        -> {Case("mixed", RandomElement(Precisions), MixedDesc(i)) : i \in 1..NMixed}
 
-Init == cs \in Cases
+(* the pools are generous; WellFormed (constructor preconditions, quantifier text) is the gate *)
+Init == cs \in {c \in Cases : WellFormed(c.desc)}
 Next == UNCHANGED cs
 Spec == Init /\ [][Next]_vars
 
@@ -326,22 +329,25 @@ LawIdentityOnCarried ==
     /\ \A l \in Range(e) \ Range(c) : l[1] \in {"obstacle", "planning"} /\ l[3] \in InitDefaultPaths
 LawPopulatedPreserved == \A sq \in Range(AllStates(D)) : PopulatedPreservedFor(PopSet(sq[1]), sq[2])
 (* what the expected read-back of a state populates is exactly Populated(written attributes, isInitial) *)
-LawExpectedPopulated ==
-  \A sq \in Range(AllStates(ReadBack(D))) : TRUE
+LawExpectedPopulated == LET a == AllStates(D)  b == AllStates(ReadBack(D)) IN
+                        \A i \in DOMAIN a : PopSet(b[i][1]) = Populated(PopSet(a[i][1]), a[i][2])
 LawCarriedMonotone == \A l \in Range(Leaves(D)) : XmlCarried(l) => PbCarried(l)      \* protobuf carries whatever XML carries
-LawAccepts == Diff("xml", Expected("xml", D), [i \in DOMAIN Leaves(ReadBack(D)) |->
-                   LET l == Leaves(ReadBack(D))[i] IN
-                   IF l[4] = "r" THEN <<l[1], l[2], l[3], "re:within_tol">> ELSE IF l[4] = "r0" THEN <<l[1], l[2], l[3], "re:zero">> ELSE l]) = ""
-              /\ Diff("pb", Expected("pb", D), [i \in DOMAIN Leaves(ReadBack(D)) |->
-                   LET l == Leaves(ReadBack(D))[i] IN
-                   IF l[4] = "r" THEN <<l[1], l[2], l[3], "re:exact">> ELSE IF l[4] = "r0" THEN <<l[1], l[2], l[3], "re:zero">> ELSE l]) = ""
+(* a read-back whose reals come back in the required class is accepted by the comparison the trace spec uses *)
+LawAccepts == LET lv == Leaves(ReadBack(D))
+                  proj(c) == [i \in DOMAIN lv |-> IF lv[i][4] = "r" THEN <<lv[i][1], lv[i][2], lv[i][3], c>>
+                                                  ELSE IF lv[i][4] = "r0" THEN <<lv[i][1], lv[i][2], lv[i][3], "re:zero">> ELSE lv[i]]
+              IN Diff("xml", Expected("xml", D), proj("re:within_tol")) = "" /\ Diff("pb", Expected("pb", D), proj("re:exact")) = ""
+
+(* contract and schema are mutually consistent: the document the contract demands is valid *)
+LawSchema == XmlExpressible(D) => ContractDocValid(D)
 
 Emit == PrintT(<<"CASE", ToJson([comp |-> cs.comp, d |-> cs.d, desc |-> cs.desc,
                                  xml |-> XmlExpressible(cs.desc), pb |-> PbExpressible(cs.desc)])>>)
 
 (* the tables of Codec.tla, printed once: the harness checks its value tables against them *)
 ASSUME PrintT(<<"TABLE", ToJson([enums |-> EnumTables, pbenums |-> [k \in DOMAIN PbEnums |-> SetToSeq(PbEnums[k])],
-                                 numtoks |-> NumToks, positive |-> SetToSeq(PositiveToks), intervals |-> SetToSeq(IntervalPairs),
+                                 numtoks |-> NumToks, positive |-> SetToSeq(PositiveToks), intervals |-> SetToSeq(IntervalPairs), angletoks |-> SetToSeq(AngleToks),
                                  attrs |-> AttrT, classes |-> StateClassT, signids |-> SignIdT, signals |-> SignalT,
-                                 countries |-> [c \in DOMAIN CountryClass |-> SetToSeq(CountryClass[c])]])>>)
+                                 countries |-> [c \in DOMAIN CountryClass |-> SetToSeq(CountryClass[c])],
+                                 xsd |-> [k \in DOMAIN Enums |-> SetToSeq(Enums[k])], xsdtags |-> TagSeq])>>)
 =============================================================================
